@@ -23,10 +23,11 @@ pub enum Case {
 fn spec_string(s: &FmtSpec) -> String {
     let (f, a) = FMT_FILLS.get(s.fill_align).copied().unwrap_or(("?", "?"));
     format!(
-        "{{:{}{}{}{}{}{}}}",
+        "{{:{}{}{}{}{}{}{}}}",
         f,
         a,
         if s.plus { "+" } else { "" },
+        if s.alt { "#" } else { "" },
         if s.zero { "0" } else { "" },
         s.width.map(|w| w.to_string()).unwrap_or_default(),
         s.precision.map(|p| format!(".{}", p)).unwrap_or_default()
@@ -36,10 +37,10 @@ fn spec_string(s: &FmtSpec) -> String {
 fn gen_spec(t: &mut Tape) -> FmtSpec {
     let plain = t.bool(1, 8);
     if plain {
-        for _ in 0..5 {
+        for _ in 0..6 {
             t.next();
         }
-        return FmtSpec { fill_align: 0, plus: false, zero: false, width: None, precision: None };
+        return FmtSpec { fill_align: 0, plus: false, zero: false, width: None, precision: None, alt: false };
     }
     FmtSpec {
         fill_align: t.below(FMT_FILLS.len()),
@@ -47,6 +48,8 @@ fn gen_spec(t: &mut Tape) -> FmtSpec {
         zero: t.bool(1, 4),
         width: if t.bool(2, 3) { Some(t.below(41)) } else { None },
         precision: if t.bool(1, 2) { Some(t.below(21)) } else { None },
+        // `#` is legal for numbers and strings and changes nothing
+        alt: t.bool(1, 5),
     }
 }
 
@@ -353,7 +356,7 @@ impl Property for C15 {
         ]
     }
     fn tape_len(&self) -> usize {
-        20
+        24
     }
     fn cases(&self, tier: Tier) -> u64 {
         match tier {
